@@ -875,11 +875,16 @@ class CompilerPassGenerateCode(CompilerPass):
             raise CompilerError("List must be constant", node)
 
         values = iter_data.constant_value
-        for_label, body_label, end_label = self.get_label("for", "for.body", "for.end")
+        for_label, body_label, continue_label, end_label = self.get_label(
+            "for", "for.body", "for.continue", "for.end"
+        )
         value_sym = self.data.get_sym_data(node.target)
         if not value_sym.code_expr:
             value_sym.code_expr = self.get_intermediate_symbol(node, True).code_expr
         data = node._ndata
+        # 'continue' returns from the body subroutine, 'break' leaves the loop
+        data.start_label = continue_label
+        data.end_label = end_label
         data.add(IC10("move", [for_label], value_sym))
         data.add(IC10(f"{for_label}:"))
         for v in values:
@@ -888,6 +893,7 @@ class CompilerPassGenerateCode(CompilerPass):
         data.add(IC10("j", [end_label]))
 
         data.add(IC10(f"{body_label}:"))
+        data.add_end(IC10(f"{continue_label}:"))
         data.add_end(IC10("j", ["ra"], indent=1))
         data.add_end(IC10(f"{end_label}:"))
 
